@@ -90,7 +90,7 @@ class StmtMixin:
             n_ob = len(self.obligations)
             try:
                 outs = m(s, st, fr)
-            except Untranslatable as e:
+            except (Untranslatable, ValueError, KeyError, AttributeError, TypeError, IndexError, z3.Z3Exception) as e:
                 del self.obligations[n_ob:]
                 del fr.pending[n0:]
                 st.guards, st.facts, st.env, st.heap, st.eff, st.epoch = backup.guards, backup.facts, backup.env, backup.heap, backup.eff, backup.epoch
